@@ -1,0 +1,17 @@
+//go:build verif
+
+package rp
+
+import "context"
+
+// VerifHook is installed by the /verif conformance harness (build tag verif only).
+// It is called at the linearization points of remoteKeySet with the key set, the
+// name of the point and a few scalars. The harness uses it to record traces and,
+// by blocking inside the hook, to replay schedules generated from the TLA+ model.
+var VerifHook func(ctx context.Context, ks any, point string, kv ...any)
+
+func verifPoint(ctx context.Context, ks any, point string, kv ...any) {
+	if h := VerifHook; h != nil {
+		h(ctx, ks, point, kv...)
+	}
+}
